@@ -317,6 +317,8 @@ class Controller:
 
     # ---- worker side
     def _park(self, rec, state, why, lock):
+        if self.aborted:                    # the run is being torn down: a thread unwinding through nested sections must not
+            raise Abort()                   # wait for a grant that will never come
         rec.state, rec.why, rec.lock = state, why, lock
         self._yielded.set()
         if not rec.go.wait(self.step_timeout * 4):
